@@ -170,17 +170,21 @@ func c09Verify(c *Ctx) {
 		if ret.Block() == fn.Recover || len(ret.Results) != 1 {
 			continue
 		}
-		if !ssax.IsNilConst(ssax.Resolve(ret.Results[0])) {
-			// a non-constant result: must be an error value produced on a failure path
-			if _, isCall := ssax.Resolve(ret.Results[0]).(*ssa.Call); isCall {
+		// the returned value may be a merge (`return helper(...)` with the helper expanded): every alternative is
+		// judged where it is chosen
+		for _, lf := range ssax.Leaves(ret.Results[0], ret) {
+			if !ssax.IsNilConst(lf.V) {
+				// a non-constant result: must be an error value produced on a failure path
+				if _, isCall := lf.V.(*ssa.Call); isCall {
+					continue
+				}
+				r.Unknown("C09/R2", sprintf("node.verifyMessage:return#%d", n), "return value is nil or a fresh error", c.PosOf(ret), "result is "+ssax.Path(lf.V))
 				continue
 			}
-			r.Unknown("C09/R2", sprintf("node.verifyMessage:return#%d", n), "return value is nil or a fresh error", c.PosOf(ret), "result is "+ssax.Path(ret.Results[0]))
-			continue
+			n++
+			r.Check(nVerifyEdges > 0 && !ssax.ReachableAvoiding(fn, lf.At, okEdges, nil), "C09/R2", sprintf("node.verifyMessage:return-nil#%d", n), "nil is returned only past ed25519.Verify == true or the skip switch", c.PosOf(ret),
+				"a `return nil` is reachable without a successful signature verification")
 		}
-		n++
-		r.Check(nVerifyEdges > 0 && !ssax.ReachableAvoiding(fn, ret, okEdges, nil), "C09/R2", sprintf("node.verifyMessage:return-nil#%d", n), "nil is returned only past ed25519.Verify == true or the skip switch", c.PosOf(ret),
-			"a `return nil` is reachable without a successful signature verification")
 	}
 	r.Check(n >= 1, "C09/R2", "node.verifyMessage:accepts", "verifyMessage can accept", c.Pos(fn.Pos()), "no nil return found")
 	a := vf.Common().Args
